@@ -339,6 +339,9 @@ def catalogue(g):
         add("ident.qualifier." + nm, ["P(%s int, t %s.T) %s.T" % (nm, qa, qb), "Q(%s io.Reader, c context.Context) (http.Header, error)" % nm])
     add("ident.qualifier-own-type", ["P(model %s.T, http *http.Request, io io.Reader, context context.Context, time time.Duration) error" % qa])
     add("ident.type-name", ["P(string string, int int) (error error)", "Q(LS LS, T %s.T) LE" % qa, "R(LE int) (LS string)"])
+    add("ident.type-name-composite.local", ["P(LS int, xs []LS) map[string]LS"])
+    add("ident.type-name-composite.foreign", ["P(T int, xs []%s.T) *%s.T" % (qa, qa), "Q(E string, m map[%s.E]int)" % qa])
+    add("ident.type-name-composite.predeclared", ["P(int string, xs []int) map[int]int", "Q(error int) []error"])
     for pair in CASE_PAIRS:
         add("ident.case-pair." + pair[0], ["P(%s) error" % ", ".join("%s int" % n for n in pair), "R() (%s)" % ", ".join("%s string" % n for n in pair)])
     for nm in NONASCII:
